@@ -137,7 +137,7 @@ func runAttackFile(t *simrt.Tape, keep bool) simrt.Outcome {
 	var rr readerReport
 	select {
 	case rr = <-rep:
-	case <-time.After(20 * time.Second):
+	case <-simrt.After20s():
 		// the command never opened its output: unblock the reader
 		if f, e := os.OpenFile(out, os.O_WRONLY|syscall.O_NONBLOCK, 0); e == nil {
 			f.Close()
